@@ -34,7 +34,7 @@ pub fn dispatch(op: &str, req: &Value) -> Result<Value, String> {
                 _ => metrics::WhitespaceCorrectionMode::InsertionsAndDeletions,
             };
             Ok(match text_utils::verif_hooks::whitespace_counts(&cl("i")?, &cl("p")?, &cl("t")?, &mode, b(req, "g")?) {
-                Ok((_, tp, fp, fn_)) => json!([tp, fp, fn_]),
+                Ok((e, tp, fp, fn_)) => json!([tp, fp, fn_, e]),
                 Err(_) => json!("Err"),
             })
         }
